@@ -1155,6 +1155,180 @@ func mainFlow(repo string) {
 	out.WriteString("def mainFlow : List (String × String × List (String × String)) := [\n" + strings.Join(rows, ",\n") + "]\n\n")
 }
 
+// funcFlow emits EVERY statement of a function in source order as (kind, text, branch path): simple
+// statements with their (whitespace-normalised) source text, control statements with their
+// condition / header; bodies of `go func(){…}()` and of function literals that are called on the spot
+// are walked too (path components "g<k>:go", "l<k>:lit"). The branch path has one component per
+// enclosing if (t/e), switch case (c<j>) and loop.
+func funcFlow(repo, rel, recv, name, leanName, doc string) {
+	f := parse(filepath.Join(repo, rel))
+	fn := findFunc(f, recv, name)
+	if fn == nil {
+		die(f.Pos(), "%s not found", name)
+	}
+	var rows []string
+	counter := 0
+	add := func(kind, detail string, path []string) {
+		var comps []string
+		for _, c := range path {
+			kv := strings.SplitN(c, ":", 2)
+			comps = append(comps, fmt.Sprintf("(%s, %s)", q(kv[0]), q(kv[1])))
+		}
+		rows = append(rows, fmt.Sprintf("  (%s, %s, [%s])", q(kind), q(detail), strings.Join(comps, ", ")))
+	}
+	ext := func(path []string, c string) []string { return append(append([]string{}, path...), c) }
+	var walk func(stmts []ast.Stmt, path []string)
+	// a function literal called on the spot inside an expression: walk its body
+	lits := func(n ast.Node, path []string) {
+		ast.Inspect(n, func(m ast.Node) bool {
+			if c, ok := m.(*ast.CallExpr); ok {
+				if fl, ok := c.Fun.(*ast.FuncLit); ok {
+					counter++
+					walk(fl.Body.List, ext(path, fmt.Sprintf("l%d:lit", counter)))
+					return false
+				}
+			}
+			if _, ok := m.(*ast.FuncLit); ok {
+				return false // a closure stored for later: its text is part of the statement
+			}
+			return true
+		})
+	}
+	walk = func(stmts []ast.Stmt, path []string) {
+		for _, st := range stmts {
+			switch t := st.(type) {
+			case *ast.ReturnStmt:
+				var rs []string
+				for _, r := range t.Results {
+					rs = append(rs, srcText(r))
+				}
+				kind := "return"
+				if n := len(t.Results); n > 0 {
+					if id, ok := t.Results[n-1].(*ast.Ident); !ok || id.Name != "nil" {
+						kind = "return-err" // the last result is not the literal nil
+					}
+				}
+				add(kind, strings.Join(rs, ", "), path)
+			case *ast.IfStmt:
+				counter++
+				k := counter
+				if t.Init != nil {
+					walk([]ast.Stmt{t.Init}, path)
+				}
+				add("if", srcText(t.Cond), ext(path, fmt.Sprintf("i%d:", k)))
+				walk(t.Body.List, ext(path, fmt.Sprintf("i%d:t", k)))
+				switch e := t.Else.(type) {
+				case *ast.BlockStmt:
+					walk(e.List, ext(path, fmt.Sprintf("i%d:e", k)))
+				case *ast.IfStmt:
+					walk([]ast.Stmt{e}, ext(path, fmt.Sprintf("i%d:e", k)))
+				}
+			case *ast.SwitchStmt:
+				counter++
+				k := counter
+				tag := ""
+				if t.Tag != nil {
+					tag = srcText(t.Tag)
+				}
+				add("switch", tag, ext(path, fmt.Sprintf("s%d:", k)))
+				for j, c := range t.Body.List {
+					cc := c.(*ast.CaseClause)
+					var es []string
+					for _, e := range cc.List {
+						es = append(es, srcText(e))
+					}
+					lbl := "default"
+					if len(es) > 0 {
+						lbl = strings.Join(es, ", ")
+					}
+					add("case", lbl, ext(path, fmt.Sprintf("s%d:c%d", k, j)))
+					walk(cc.Body, ext(path, fmt.Sprintf("s%d:c%d", k, j)))
+				}
+			case *ast.ForStmt:
+				counter++
+				hdr := ""
+				if t.Init != nil {
+					hdr += srcText(t.Init)
+				}
+				hdr += "; "
+				if t.Cond != nil {
+					hdr += srcText(t.Cond)
+				}
+				hdr += "; "
+				if t.Post != nil {
+					hdr += srcText(t.Post)
+				}
+				if hdr == "; ; " {
+					hdr = ""
+				}
+				add("for", hdr, ext(path, fmt.Sprintf("f%d:loop", counter)))
+				walk(t.Body.List, ext(path, fmt.Sprintf("f%d:loop", counter)))
+			case *ast.RangeStmt:
+				counter++
+				hdr := "range " + srcText(t.X)
+				if t.Key != nil {
+					hdr = srcText(t.Key)
+					if t.Value != nil {
+						hdr += ", " + srcText(t.Value)
+					}
+					hdr += " := range " + srcText(t.X)
+				}
+				add("for", hdr, ext(path, fmt.Sprintf("f%d:loop", counter)))
+				walk(t.Body.List, ext(path, fmt.Sprintf("f%d:loop", counter)))
+			case *ast.BlockStmt:
+				walk(t.List, path)
+			case *ast.BranchStmt:
+				add(t.Tok.String(), "", path)
+			case *ast.GoStmt:
+				if fl, ok := t.Call.Fun.(*ast.FuncLit); ok {
+					counter++
+					add("go", "", ext(path, fmt.Sprintf("g%d:go", counter)))
+					walk(fl.Body.List, ext(path, fmt.Sprintf("g%d:go", counter)))
+				} else {
+					add("go", srcText(t.Call), path)
+				}
+			case *ast.DeferStmt:
+				add("defer", srcText(t.Call), path)
+			case *ast.SendStmt:
+				if c, ok := t.Value.(*ast.CallExpr); ok {
+					if _, ok := c.Fun.(*ast.FuncLit); ok {
+						add("send", srcText(t.Chan), path)
+						lits(t.Value, path)
+						continue
+					}
+				}
+				add("send", srcText(t.Chan)+" <- "+srcText(t.Value), path)
+			case *ast.ExprStmt:
+				add("call", srcText(t.X), path)
+				lits(t.X, path)
+			case *ast.DeclStmt:
+				if gd, ok := t.Decl.(*ast.GenDecl); ok {
+					cp := *gd
+					cp.Doc = nil
+					add("decl", srcText(&cp), path)
+				} else {
+					add("decl", srcText(t), path)
+				}
+			case *ast.AssignStmt, *ast.IncDecStmt:
+				kind := "assign"
+				if as, ok := st.(*ast.AssignStmt); ok {
+					for _, l := range as.Lhs {
+						if id, ok := l.(*ast.Ident); ok && id.Name == "err" {
+							kind = "assign-err" // the statement produces an error value
+						}
+					}
+				}
+				add(kind, srcText(st), path)
+				lits(st, path)
+			default:
+				die(st.Pos(), "funcFlow: unsupported statement %T", st)
+			}
+		}
+	}
+	walk(fn.Body.List, nil)
+	fmt.Fprintf(&out, "/-- %s -/\ndef %s : List (String × String × List (String × String)) := [\n%s]\n\n", doc, leanName, strings.Join(rows, ",\n"))
+}
+
 func main() {
 	if len(os.Args) != 3 {
 		fmt.Fprintln(os.Stderr, "usage: gofacts <repo> <outdir>")
@@ -1178,6 +1352,7 @@ func main() {
 	scanPhases(repo)
 	resolverSites(repo)
 	mainFlow(repo)
+	funcFlow(repo, "sizes/graph.go", "", "ScanRepositoryUsingGraph", "scanFlow", "sizes.ScanRepositoryUsingGraph, EVERY statement in source order: (kind, text, branch path)")
 	out.WriteString("end Gen.Cmds\n")
 	if err := os.WriteFile(filepath.Join(outdir, "Cmds.lean"), []byte(out.String()), 0o644); err != nil {
 		panic(err)
